@@ -509,6 +509,9 @@ def pick_sites(prog, f, g, d, kinds_loc):
     # the loop also "depends" on the result list)
     flows = {'cores': set(), 'gpus': set()}
     ed = _explicit_deps(d)
+    sliced = {n.value.id for n in walk(f.node)
+              if isinstance(n, ast.Subscript) and
+              isinstance(n.slice, ast.Slice) and isinstance(n.value, ast.Name)}
     for n in walk(f.node):
         if isinstance(n, ast.Dict):
             for k, v in zip(n.keys, n.values):
@@ -518,6 +521,15 @@ def pick_sites(prog, f, g, d, kinds_loc):
             for kw in n.keywords:
                 if kw.arg in flows and dotted(n.func) in ('Slot',):
                     flows[kw.arg] |= ed.expr_depends(kw.value)
+        if isinstance(n, ast.Assign):
+            # slot['cores'] = <list built from a slice of a list of indices
+            # that was collected beforehand>: the collecting append is the
+            # pick
+            for t in n.targets:
+                if isinstance(t, ast.Subscript) and \
+                        isinstance(t.slice, ast.Constant) and \
+                        t.slice.value in flows:
+                    flows[t.slice.value] |= ed.expr_depends(n.value) & sliced
     out = []
     for c in calls_in(f.node):
         if not (isinstance(c.func, ast.Attribute) and c.func.attr == 'append'):
@@ -699,7 +711,9 @@ def check_picks(prog, rep, f, kinds_loc, label, rid5='R01.5', rid6='R01.6',
             skip_edges = [e for e in g.pred[F.id] if e.back]
         r = set()
         for e in g.succ[node.id]:
-            if e.label == 'exc':
+            if e.label == 'exc' or e in skip_edges:
+                # (the pick may be the last statement of the scan loop: its
+                # out-edge is the back edge that takes the next item)
                 continue
             r |= g.reachable(e.dst, skip_nodes=writers, skip_edges=skip_edges) \
                 if e.dst not in writers else set()
@@ -709,7 +723,7 @@ def check_picks(prog, rep, f, kinds_loc, label, rid5='R01.5', rid6='R01.6',
         resets = []
         fwd = set()
         for e in g.succ[node.id]:
-            if e.label != 'exc':
+            if e.label != 'exc' and e not in skip_edges:
                 fwd |= g.reachable(e.dst, skip_edges=skip_edges)
         back = _ancestors(g, G.id)
         for n in g.stmt_nodes():
